@@ -36,7 +36,7 @@ CHECKS = {
             "floor: F <= x, x - F < |s|, F = x - (x mod s) with operands provably the exact counts; zero step => 0; ceil = floor + |s| (MAX on overflow); round picks floor iff strictly nearer (ties up); Epoch forms delegate in the epoch's own scale.",
             "3.C14"),
     "C17": ("abstract interpretation with uninterpreted scale conversion, constant folding (IEEE doubles) and table agreement with the statement's constants",
-            "Every Duration-valued JD/MJD/UNIX view is to_S_duration() + K with K equal to the statement's constant; every float view is to_unit/to_seconds of such a duration with the right unit; from_mjd/from_jde/from_unix mirror the constants.",
+            "Every Duration-valued JD/MJD/UNIX view is to_S_duration() + K with K equal to the statement's constant; every float view is to_unit/to_seconds of such a duration with the right unit; from_mjd/from_jde constructors place the day count relative to each of the nine scales' own reference epoch (oracle reference dates), from_unix mirrors the 1970 constant. Ulp clauses of the float views are NOT decided.",
             "3.C17"),
     "C20": ("abstract interpretation with linear forms and division axioms; dominating-guard and delegation rules",
             "from_time_of_week = from_total_nanoseconds(ns + week*7d) in the given scale; to_time_of_week satisfies week*7d+ns == count, 0 <= ns < 7d for non-negative counts; GNSS ns counters exact, Ok only under centuries == 0; day-of-year siblings share the anchor with paired +/-1.0.",
@@ -51,19 +51,19 @@ CHECKS = {
             "is_gregorian_valid accepts only inside / rejects only outside the statement's region (month lengths, 4/100/400 rule, leap-second instants from the IERS rows); tables; maybe_from_gregorian = 365(y-1900) d +/- one day per leap loop-year + cumulative days + time of day - scale offset, Err on invalid input, no panic.",
             "3.C08"),
     "C07": ("constant agreement with the NAIF kernel file + expression-DAG shape comparison (abstract interpretation, sin uninterpreted) + operand-flow/sign rules",
-            "PARTIAL (necessary conditions): NAIF/TDB constants equal the kernel's and the statement's; delta_et_tai and inner_g are exactly the closed forms as expression DAGs; both directions of ET and TDB apply the same correction with opposite signs, mirrored 32.184 s shift and J2000 offset. The 30 ns / 20 ns / 100 ns accuracy clauses are floating-point error bounds and are NOT decided.",
+            "PARTIAL (necessary conditions): NAIF/TDB constants equal the kernel's and the statement's; delta_et_tai and inner_g are exactly the closed forms as expression DAGs; both directions of ET and TDB apply the same correction with opposite signs, mirrored 32.184 s shift and J2000 offset; the correction is evaluated within 1 s of the epoch's own seconds -/+ 32.184 s (interval evaluation of the refinement loop's float term), which bounds the induced error below 1 ns. The 30 ns / 20 ns / 100 ns accuracy clauses themselves are floating-point error bounds and are NOT decided.",
             "3.C07"),
     "C18": ("finite-map/table agreement + decision-table extraction over float comparison terms + reachability of panics / loop bounds by abstract interpretation",
-            "PARTIAL: factor tables of Unit x f64 / Unit x i64 / in_seconds agree and match the statement; Unit<->u8 inverse; Unit x f64 saturates by the documented three-way decision and hands trunc(q*factor) to the exact integer constructors; no panic and bounded loops for any f64 in Unit x f64, to_seconds/to_unit, from_* and Duration x f64. Ulp/rounding/monotonicity clauses are NOT decided.",
+            "PARTIAL: factor tables of Unit x f64 / Unit x i64 / in_seconds agree and match the statement; Unit<->u8 inverse; Unit x f64 saturates by the documented three-way decision and hands trunc(q*factor) to the exact integer constructors; no panic and bounded loops for any f64 in Unit x f64, to_seconds/to_unit, from_* and Duration x f64; in Duration x f64 the integer converted is the one the integrality test certified (same rounding function) and the test's tolerance is relative (<= 2 eps) or bounded by 1 ns over 10 000 years. Ulp/rounding/monotonicity clauses of the float views are NOT decided.",
             "3.C18"),
     "C11": ("abstract interpretation with division axioms; table-chain agreement (writer/reader); E7 format-template decoding over all Display path partitions",
             "decompose: weighted sum of the seven integer outputs == |count|, ranges, sign; Display unit strings -> UNITS slots -> compose_f64 parameters -> TimeUnits methods -> the same weights; all 25 spellings; Display prints '-' iff negative, '0 ns' iff zero, exactly the non-zero components in order with single spaces; serde via Display/FromStr.",
             "3.C11"),
-    "C09": ("E6 float-exactness taint + interval evaluation by provenance; sibling-shape agreement; E7 format-template decoding with argument-flow checks",
-            "PARTIAL: no f64 view of the duration and only exact int->float casts in compute_gregorian's cone; forward/inverse Gregorian code share reference year, ranges, leap predicate, tables and offset (opposite sign); hour/minute/second/ns ranges and lossless casts; the eight writers' templates, argument order, scale and fraction guard; year/month_name from the same decomposition. Exact inversion of the day count by the year/month search is NOT decided.",
+    "C09": ("E6 float-exactness taint + interval evaluation by provenance; sibling-shape agreement; E7 format-template decoding with argument-flow checks; per-cell abstract interpretation of the year/month/day search (integer-valued-double domain, loop summaries with inductive-step check) against a days-from-civil oracle",
+            "No f64 view of the duration and only exact int->float casts in compute_gregorian's cone; forward/inverse Gregorian code share reference year, ranges, leap predicate, tables and offset; hour/minute/second/ns ranges and lossless casts; the eight writers' templates, argument order, scale and fraction guard; accessors from the same decomposition; time-of-day operand flow (compose of one decomposition, nanosecond weights); the (year, month, day) computed from the day count equals the civil calendar for every day of years 0001-9999 (quick tier: ~325 of the 10 003 estimate-year cells; thorough: all). Relies on decompose's exactness (C11.R1) and on is_leap_year == 4/100/400 rule (decided here).",
             "3.C09"),
     "C19": ("abstract interpretation of Display for Formatter over per-rule abstract formats with E7 template decoding; finite-map extraction; constant-vs-documentation agreement",
-            "token -> (field, {:0N}) table for every token in both branches; letter -> Token map and Item::new separator/optional table; each predefined constant equals its documented format string (rustdoc pairs / named standard); no panic for any token, Format fields private, need_gregorian partition; separators exactly once; ISO8601 renders as the default Display template.",
+            "token -> (field, {:0N}) table for every token in both branches; letter -> Token map and Item::new separator/optional table; each predefined constant equals its documented format string (rustdoc pairs / named standard); no panic for any token, Format fields private, need_gregorian partition; separators exactly once; ISO8601 renders as the default Display template; for UTC epochs Format::parse interpreted on what the Formatter renders (predefined formats without optional tokens + three generated) reaches maybe_from_gregorian with field k = digit run k.",
             "3.C19"),
 }
 
